@@ -404,6 +404,20 @@ func (s *sim) apply(a Action) {
 	}
 }
 
+// dispatched reports whether the HTTP server handed the request that client c
+// made to a handler.
+func (s *sim) dispatched(c *client) bool {
+	addr := c.conn.LocalAddr().String()
+	s.mu.Lock()
+	defer s.mu.Unlock()
+	for _, r := range s.reqs {
+		if r.remote == addr {
+			return true
+		}
+	}
+	return false
+}
+
 var time2024 = time.Date(2024, 9, 19, 12, 0, 0, 0, time.UTC)
 
 func (s *sim) fault(n string) { s.faults[n]++; s.nontrivial = true }
@@ -1236,13 +1250,26 @@ func (s *sim) checkSessions() {
 			}
 		}
 		if ss.closing {
-			// every response of the session has ended by now
+			// every response of the session has ended by now - provided the
+			// server ever had all of the session's requests: one that arrived on
+			// an idle connection while the server was on its way out (after the
+			// one shell of a -one-shell run) is never handed to a handler, and a
+			// stream the server does not know cannot end its peer
+			allServed := true
+			for _, c := range []*client{ss.in, ss.out, ss.io} {
+				if c != nil && !s.dispatched(c) {
+					allServed = false
+				}
+			}
+			if !allServed {
+				s.probes["session_with_a_request_the_server_never_served"]++
+			}
 			for _, c := range []*client{ss.in, ss.out, ss.io} {
 				if c == nil {
 					continue
 				}
 				_, _, eof, done, _ := c.snapshot()
-				if !(done && eof) && !c.closed {
+				if allServed && !(done && eof) && !c.closed {
 					s.violate("C04", "peer-ends-http", "other direction's HTTP request not ended after one direction ended",
 						"the client ended one stream of session %d but the other stream's response is still open", ss.n)
 				}
